@@ -198,13 +198,14 @@ def complex_cases(rng, n, ctx, classes):
             lays = [lays[0]] * 4
         real_obs = [gen.make_obs(rng, lay, mean=float(np.round(rng.uniform(0.6, 2.0), 3)), sigma=0.03) for lay in lays]
         # a part whose central value is exactly zero still fluctuates (a purely real or purely imaginary mean says nothing about the fluctuations)
-        for q in (1, 3):
-            if rng.random() < 0.2:
-                real_obs[q] = real_obs[q] - real_obs[q].value
+        # (operator x operand kinds x which part is centred at zero) rotate deterministically: 4 x 5 x 3 = 60 combinations, every one of
+        # them within any 60 consecutive cases
+        for q in ((), (1,), (3,))[i % 3]:
+            real_obs[q] = real_obs[q] - real_obs[q].value
         # leaves: 0 = CObs(o1, o2), 1 = CObs(o3, o4) or real Obs o3, plus numbers
         leafs = []
         exprs = []
-        lk = rng.choice(['cc', 'cr', 'cnum', 'cnumr', 'rcnum'])
+        lk = ['cc', 'cr', 'cnum', 'cnumr', 'rcnum'][i % 5]
         A = pe.CObs(real_obs[0], real_obs[1])
         eA = {'op': 'cvar', 're': 1, 'im': 2, 'leaf': 0}
         zc = complex(float(np.round(rng.uniform(0.5, 2), 2)), float(np.round(rng.uniform(0.5, 2), 2)) * (1 if rng.random() < 0.5 else -1))
@@ -221,8 +222,10 @@ def complex_cases(rng, n, ctx, classes):
             A, eA = real_obs[0], {'op': 'rvar', 'i': 1, 'leaf': 0}
             Bv, eB, ops = zc, {'op': 'cconst', 're': rat(zc.real), 'im': rat(zc.imag), 'py': zc}, real_obs[:1]
         leaves = [A, Bv]
-        op = str(rng.choice(['add', 'sub', 'mul', 'div']))
-        pos = str(rng.choice(['left', 'right']))
+        op = ['add', 'sub', 'mul', 'div'][(i // 5) % 4]
+        # the operand centred at zero is the right-hand one in the first round of 60, the left-hand one in the next, and so on
+        zero_on = i % 3
+        pos = str(rng.choice(['left', 'right'])) if zero_on == 0 else ['right', 'left'][((zero_on == 2) + (i // 60)) % 2]
         e = {'op': op, 'a': [eA, eB] if pos == 'left' else [eB, eA]}
         if rng.random() < 0.25 and lk != 'rcnum':
             e = {'op': str(rng.choice(['neg', 'conj'])), 'a': [e]}
